@@ -20,6 +20,7 @@ EXPLANATION = (
     "a new packet's accumulator restarts at the size of its first record; the default max_nodes_response keeps `total` one RLP "
     "byte. R4: a PING from a non-zero port is always answered with a PONG carrying the request's id, the local sequence number "
     "and exactly the observed source ip and port.")
+EXPLANATION += (" Added while testing: R1 also requires the table lookup to be skipped only past an emptiness test of the remaining distances; R3 is an inductive argument over one iteration of the split loop (Fourier-Motzkin); R5: the table query that feeds the answer is capped per node (C08.R3's cap obligations).")
 NOT_DECIDED = ["that nodes_by_distances returns all entries at the distances up to the cap", "encoded sizes of actual records (R3 is the arithmetic relation between constants)",
                "a user-supplied max_nodes_response above 126 (outside the claim)"]
 TRUSTED = ["alloy_rlp::encode(record).len() is the record's encoded size; RLP framing of a NODES message is at most 17 bytes when total < 128"]
